@@ -211,7 +211,7 @@ func checkC06(r *Run) {
 		if arm != nil {
 			arm(disk)
 		}
-		installSim(ctl, disk, "json.worker.send", "json.reader.submit", "json.reader.done")
+		installSim(ctl, disk, "json.worker.send", "json.reader.submit", "json.reader.done", "json.consumer.loop")
 		defer installSim(nil, nil)
 		planned, err := PlanSQL(bubbleCtx(), sql, map[string]*SimTable{}, optimize)
 		if err != nil {
@@ -224,7 +224,24 @@ func checkC06(r *Run) {
 			return nil
 		}
 		g := RunGatedPool(r, planned.Node, workers, ctl, produce, func(execution.ProduceContext, execution.MetadataMessage) error { return nil },
-			func(en []string) int { return t.Draw(len(en)) }, 200000)
+			func(en []string) int {
+				if shape == "in_subquery" || shape == "scalar_subquery" {
+					// The subquery runs nested inside the main source's consumer. While it runs, hand-offs
+					// of the main file must wait: otherwise several of the consumer's channels (parsed
+					// batch, reader done) become ready at once and Go's select picks among them at random,
+					// outside the tape's control.
+					var cand []int
+					for i, k := range en {
+						if strings.Contains(k, sub.file) {
+							cand = append(cand, i)
+						}
+					}
+					if len(cand) > 0 {
+						return cand[t.Draw(len(cand))]
+					}
+				}
+				return t.Draw(len(en))
+			}, 200000)
 		oc.runErr = g.Err
 		oc.deadlock = g.Deadlock || !g.Finished
 		oc.fired = disk.FiredCount("read_error")
